@@ -259,7 +259,7 @@ def fvC (h : HooksG) (inner : Inner) (ic : InnerCost) (nc : NvarCost) : Nat → 
     | .error _ => errC
     | .ok st =>
     if length > data.length then errC else do
-    let hasExt : Bool := eho ≠ 0 ∧ length ≥ 20 ∧ eho < length - 20
+    let hasExt : Bool := eho ≠ 0 ∧ length ≥ 20 ∧ eho ≤ length - 20
     let (fvName, ehs) ← liftC (
       if hasExt then do
         let eb ← sliceFromG "NewFirmwareVolume: data[fv.ExtHeaderOffset:]" data eho
